@@ -440,7 +440,9 @@ def stepFinalLike (s : State) (kind : OpKind) (h : Nat) (cap : Option Nat) (oRv 
   match s.handles.getSess h with
   | none => rOnly s CKR.SESSION_HANDLE_INVALID
   | some ss =>
-    if ss.op != kind || (kind == .sign && !ss.opd.multi) then rOnly s CKR.OPERATION_NOT_INITIALIZED
+    if ss.op != kind then rOnly s CKR.OPERATION_NOT_INITIALIZED
+    -- a single-part-only mechanism cannot be finalised: the call fails and ends the operation (as C_SignUpdate does)
+    else if kind == .sign && !ss.opd.multi then (resetOp s h ss, { rv := CKR.OPERATION_NOT_INITIALIZED })
     else if kind == .sign && ss.opd.reauth then (resetOp s h ss, { rv := CKR.USER_NOT_LOGGED_IN })
     else
       lenProto s h ss ss.opd.outLen cap
@@ -455,7 +457,8 @@ def stepVerify (s : State) (single : Bool) (h : Nat) (inLen : Option Nat) (sigLe
     match s.handles.getSess h with
     | none => rOnly s CKR.SESSION_HANDLE_INVALID
     | some ss =>
-      if ss.op != .verify || (!single && !ss.opd.multi) then rOnly s CKR.OPERATION_NOT_INITIALIZED
+      if ss.op != .verify then rOnly s CKR.OPERATION_NOT_INITIALIZED
+      else if !single && !ss.opd.multi then (resetOp s h ss, { rv := CKR.OPERATION_NOT_INITIALIZED })
       else if single && !ss.opd.single then (resetOp s h ss, { rv := CKR.OPERATION_NOT_INITIALIZED })
       else if sl != ss.opd.outLen then (resetOp s h ss, { rv := CKR.SIGNATURE_LEN_RANGE })
       else if single && ss.opd.rawRsa && n > ss.opd.outLen then (resetOp s h ss, { rv := CKR.DATA_LEN_RANGE })
